@@ -101,12 +101,12 @@ func registerZZ(P *Program) {
 	// AnySdkInt: unconstrained math.Int within the 256-bit domain
 	P.reg("zzverif.AnySdkInt", func(it *Interp, a []Value) Value {
 		m := new(big.Int).Sub(pow2(256), big.NewInt(1))
-		return IntV{V: it.anyRange(tagOf(a[0]), new(big.Int).Neg(m), m, "sdkint")}
+		return nIntV(it.anyRange(tagOf(a[0]), new(big.Int).Neg(m), m, "sdkint"))
 	})
 	// AnyAmount: math.Int in [0, 2^bits)
 	P.reg("zzverif.AnyAmount", func(it *Interp, a []Value) Value {
 		bits := int(asBig(a[1]).Int64())
-		return IntV{V: it.anyRange(tagOf(a[0]), big.NewInt(0), new(big.Int).Sub(pow2(bits), big.NewInt(1)), "sdkint")}
+		return nIntV(it.anyRange(tagOf(a[0]), big.NewInt(0), new(big.Int).Sub(pow2(bits), big.NewInt(1)), "sdkint"))
 	})
 	P.reg("zzverif.AnyBigAmount", func(it *Interp, a []Value) Value {
 		bits := int(asBig(a[1]).Int64())
@@ -229,7 +229,7 @@ func registerZZ(P *Program) {
 	P.reg("zzverif.Iff", func(it *Interp, a []Value) Value { return mkBoolEq(a[0], a[1]) })
 	P.reg("zzverif.IteI64", func(it *Interp, a []Value) Value { return mkIte(a[0], a[1], a[2]) })
 	P.reg("zzverif.IteInt", func(it *Interp, a []Value) Value {
-		return IntV{V: mkIte(a[0], a[1].(IntV).V, a[2].(IntV).V)}
+		return nIntV(mkIte(a[0], it.intVal(a[1].(IntV)), it.intVal(a[2].(IntV))))
 	})
 	P.reg("zzverif.IteCoins", func(it *Interp, a []Value) Value {
 		x, y := it.toCoins(a[1]), it.toCoins(a[2])
